@@ -8,6 +8,24 @@
 #include <condition_variable>
 #include <mutex>
 
+#ifdef M17CXX_VERIF
+#include <type_traits>
+namespace mobilinkd { namespace verif {
+// Verification hook (compiled only with -DM17CXX_VERIF): called from inside the queue's critical sections, i.e. with
+// the queue's mutex held, so the calls of one queue are totally ordered in critical-section order.
+// Arguments: queue, event tag, value (for arithmetic element types, else 0), size_ after the event, state_.
+inline void (*queue_hook)(const void*, int, long long, long long, int) = nullptr;
+template <typename V> inline long long hook_value(const V& v)
+{
+    if constexpr (std::is_arithmetic_v<V>) return (long long)v; else return 0;
+}
+}}
+#define M17CXX_VERIF_QEVENT(tag, val) do { if (::mobilinkd::verif::queue_hook) \
+    ::mobilinkd::verif::queue_hook(this, (tag), ::mobilinkd::verif::hook_value(val), (long long)size_, (int)state_); } while (0)
+#else
+#define M17CXX_VERIF_QEVENT(tag, val) do {} while (0)
+#endif
+
 namespace mobilinkd
 {
 
@@ -79,11 +97,14 @@ public:
         {
             if (State::CLOSED == state_)
             {
+                M17CXX_VERIF_QEVENT(5, 0);
                 return false;
             }
 
+            M17CXX_VERIF_QEVENT(6, 0);
             if (empty_.wait_until(lock, when) == std::cv_status::timeout)
             {
+                M17CXX_VERIF_QEVENT(9, 0);
                 return false;
             }
         }
@@ -97,6 +118,7 @@ public:
             state_ == State::CLOSED;
         }
         
+        M17CXX_VERIF_QEVENT(4, val);
         full_.notify_one();
 
         return true;
@@ -124,11 +146,14 @@ public:
         {
             if (State::CLOSED == state_)
             {
+                M17CXX_VERIF_QEVENT(5, 0);
                 return false;
             }
 
+            M17CXX_VERIF_QEVENT(6, 0);
             if (empty_.wait_for(lock, timeout) == std::cv_status::timeout)
             {
+                M17CXX_VERIF_QEVENT(9, 0);
                 return false;
             }
         }
@@ -142,6 +167,7 @@ public:
             state_ == State::CLOSED;
         }
         
+        M17CXX_VERIF_QEVENT(4, val);
         full_.notify_one();
 
         return true;
@@ -178,11 +204,14 @@ public:
             {
                 if (State::OPEN != state_)
                 {
+                    M17CXX_VERIF_QEVENT(2, 0);
                     return false;
                 }
 
+                M17CXX_VERIF_QEVENT(3, 0);
                 if (full_.wait_until(lock, expiration) == std::cv_status::timeout)
                 {
+                    M17CXX_VERIF_QEVENT(8, 0);
                     return false;
                 }
             }
@@ -190,11 +219,13 @@ public:
         
         if (State::OPEN != state_)
         {
+            M17CXX_VERIF_QEVENT(2, 0);
             return false;
         }
 
         queue_.emplace_back(std::forward<U>(val));
         size_ += 1;
+        M17CXX_VERIF_QEVENT(1, queue_.back());
 
         empty_.notify_one();
         
@@ -206,6 +237,7 @@ public:
         guard_type lock(mutex_);
 
         state_ = (queue_.empty() ? State::CLOSED : State::CLOSING);
+        M17CXX_VERIF_QEVENT(7, 0);
         
         full_.notify_all();
         empty_.notify_all();
